@@ -50,7 +50,47 @@ const COMMON_ASSUME: &[&str] = &[
     "sampling, not enumeration: a clean batch is evidence, not proof",
 ];
 
+const K_REAL: &[&str] = &[
+    "core/src/coroutine/{mod,korosensei,state,listener,suspender,local}.rs",
+    "core/src/common/macros.rs (catch!, impl_current_for!)",
+    "corosensei context switching, psm (real)",
+];
+const K_STUB: &[&str] = &["wall clock (simulated)", "uuid (seeded)", "SIGVTALRM/SIGURG delivery (queued, delivered at scheduling points)"];
+
 pub static PROPS: &[Prop] = &[
+    Prop {
+        id: "C07",
+        level: "exploration",
+        parts: &[Part { scenario: "co_life", quick_runs: 150_000, thorough_runs: 3_000_000, classes: &["listener-protocol", "listener-chain", "illegal-transition", "unreported-change", "refused-resume-side-effect", "resume-refused", "terminal-left", "terminal-result", "resume-result-mismatch", "refused-call-side-effect", "early-complete", "wrong-result", "crash", "panic-on-caller-thread"] }],
+        quick_wall_s: 45,
+        thorough_wall_s: 600,
+        rule: "1-5 coroutines x generated bodies (suspend/delay/until/cancel/enter-syscall/syscall-state yields/leave/panic/return) x generated driver actions (resume incl. finished and not-yet-due ones, clock advances, syscall wake-ups, direct transition calls at random states), some with panicking listeners; recording listeners checked against the documented graph; non-trivial = a syscall-state yield, delay, cancel, refused resume or panic happened; distinct = distinct workload fingerprints",
+        assumptions: COMMON_ASSUME,
+        real: K_REAL,
+        stub: K_STUB,
+    },
+    Prop {
+        id: "C08",
+        level: "exploration",
+        parts: &[Part { scenario: "co_vals", quick_runs: 150_000, thorough_runs: 3_000_000, classes: &["value-in", "value-out", "completion-count", "panic-message", "unwound-into-caller", "terminal-left", "terminal-result", "resume-refused", "crash", "panic-on-caller-thread"] }],
+        quick_wall_s: 40,
+        thorough_wall_s: 600,
+        rule: "typed coroutine<u64,u64,u64> with 0-20/50 suspend points, unique random payloads in both directions, ending in return or panic with &'static str or String payload, with and without panicking listeners; every run is non-trivial by construction; distinct = distinct workload fingerprints",
+        assumptions: COMMON_ASSUME,
+        real: K_REAL,
+        stub: K_STUB,
+    },
+    Prop {
+        id: "C09",
+        level: "exploration",
+        parts: &[Part { scenario: "co_life", quick_runs: 150_000, thorough_runs: 3_000_000, classes: &["request-leak"] }],
+        quick_wall_s: 45,
+        thorough_wall_s: 600,
+        rule: "same runs as C07; each body records what it asked for in its latest yield (plain, delay d, until t, cancel, or a yield made in a syscall state) and the resume's reported wake-up time / cancellation must be exactly that; non-trivial = a syscall-state yield, delay or cancel happened in the run",
+        assumptions: COMMON_ASSUME,
+        real: K_REAL,
+        stub: K_STUB,
+    },
     Prop {
         id: "C03",
         level: "exploration",
